@@ -159,6 +159,7 @@ FLINK = {"k": "flink"}
 FPLINK = {"k": "fplink"}     # a relative symbolic link to the first file named in the arguments (pass-through)
 FOUTSIDE = {"k": "foutside"} # a file the stage writes outside the pipestance directory
 FDLINK = {"k": "fdlink"}     # a file below a symbolic link, placed in the files directory, to a directory of reference data elsewhere
+FDLINK2 = {"k": "fdlink2"}   # ... reached through a second link (files/cur -> files/ref -> elsewhere)
 FLINK2 = {"k": "flink2"}     # a chain of relative symbolic links through sub-directories
 FSM = {"k": "fsm"}           # a struct {string label; map m; file f}       # a symbolic link to a file of the stage         # a directory (type path) with two files in it  # a struct {file f; int n}
 CI = {"k": "ci"}
